@@ -1,10 +1,10 @@
 (* Core fragment, WHOLE specifications: the constraint-and-bounds part of stability of the ground program of a specification
    (any number of concepts and sentences) is the conjunction of the readings of its constraint and choice sentences, for the
    sentence kinds that have an end-to-end theorem (named instances, single-clause constraints with or without a 'where'
-   comparison, choice sentences without for-each; derived definitions contribute no constraint). *)
+   comparison, choice sentences with or without for-each; derived definitions contribute no constraint). *)
 Require Import Coq.Strings.String Coq.Lists.List Coq.Bool.Bool Coq.ZArith.ZArith.
 Require Import Cnl2aspV.Base.Util Cnl2aspV.Asp.Ground Cnl2aspV.Cnl.Comparison Cnl2aspV.Cnl.Core Cnl2aspV.Cnl.CoreProofs
-               Cnl2aspV.Cnl.CoreChoice Cnl2aspV.Cnl.CoreWhere.
+               Cnl2aspV.Cnl.CoreChoice Cnl2aspV.Cnl.CoreChoiceEach Cnl2aspV.Cnl.CoreWhere.
 Import ListNotations.
 Open Scope string_scope.
 
@@ -19,7 +19,13 @@ Definition covered (s : spec) (x : sentence) : Prop :=
   | SCons _ [] [cl] (Some w) =>
       cl_slabel cl <> cl_olabel cl /\ declared s (cl_subj cl) /\ declared s (cl_obj cl) /\ In (w_phrase w) comparison_phrases /\
       (w_left w = cl_slabel cl \/ w_left w = cl_olabel cl) /\ (w_right w = cl_slabel cl \/ w_right w = cl_olabel cl)
-  | SChoice c => declared s (ch_subj c) /\ declared s (ch_obj c) /\ ch_foreach c = None /\ var_of s (ch_subj c) (ch_slabel c) <> var_of s (ch_obj c) (ch_olabel c) /\ NoDup (dom_of s (ch_obj c))
+  | SChoice c =>
+      declared s (ch_subj c) /\ declared s (ch_obj c) /\ NoDup (dom_of s (ch_obj c)) /\
+      var_of s (ch_subj c) (ch_slabel c) <> var_of s (ch_obj c) (ch_olabel c) /\
+      match ch_foreach c with
+      | None => True
+      | Some e => declared s e /\ auto_var s e <> var_of s (ch_subj c) (ch_slabel c) /\ auto_var s e <> var_of s (ch_obj c) (ch_olabel c)
+      end
   | _ => False
   end.
 
@@ -59,8 +65,10 @@ Section Program.
     constraints_ok I (flat_map (ground_rule U) (compile_sentence s x)) = r_bounds s I x.
   Proof.
     intros Hc. destruct x as [c|subj label newpred body|required whenpart main wh|l vals y|required neg v sval oval]; cbn [covered] in Hc.
-    - destruct Hc as (Hds & Hdo & Hfe & Hne & Hnd). cbn [r_bounds].
-      apply (choice_bounds_correct s U I c Hfe Hne (Hdom _ Hds) (Hdom _ Hdo) (Hincl _) (Hincl _) HUnd Hnd).
+    - destruct Hc as (Hds & Hdo & Hnd & Hne & Hfe). cbn [r_bounds]. destruct (ch_foreach c) as [e|] eqn:Efe.
+      + destruct Hfe as (Hde & Hes & Heo).
+        apply (each_choice_bounds_correct s U I c e Efe Hne Hes Heo (Hdom _ Hde) (Hdom _ Hds) (Hdom _ Hdo) (Hincl _) (Hincl _) (Hincl _) HUnd Hnd).
+      + apply (choice_bounds_correct s U I c Efe Hne (Hdom _ Hds) (Hdom _ Hdo) (Hincl _) (Hincl _) HUnd Hnd).
     - cbn [r_bounds]. apply only_rules_ok, def_rules_only.
     - destruct whenpart as [|? ?]; [|destruct Hc]. destruct main as [|cl [|? ?]]; try destruct Hc. destruct wh as [w|]; cbn [r_bounds].
       + destruct Hc as (Hne & Hds & Hdo & Hph & Hl & Hr).
